@@ -50,3 +50,8 @@ Proof.
   rewrite gen_for_len_eq, gen_for_len_incl_eq, gen_for_len_unchecked_eq.
   destruct m as [k|]; cbn; [destruct (k <? n), (k <=? n)|]; repeat split; reflexivity.
 Qed.
+
+(* Display of an Index (`fn fmt` translated to the text it writes): the decimal spelling of the number, or "-" *)
+Theorem gen_display_index (i : Index) :
+  gen_Index_display i = Ret (match i with Index_Num n => Dec.dec_of_N n | Index_Next => [45] end).
+Proof. destruct i; reflexivity. Qed.
